@@ -243,6 +243,17 @@ class SessionRun(ClientRun):
             elif k == "connect":
                 coro = c.bluetooth_device_connect(A, lambda connected, mtu, err, oid=oid, a=a: run.cb.append([100 + int(oid[1:]), "connected" if connected else "disconnected", a, [], run.msg_seq]),
                                                   timeout=TBLE, disconnect_timeout=TDISC)
+            elif k == "connect_auto":
+                # the application's state callback drops its own subscription when it is told "disconnected"
+                # (it can only do so once the connect call has handed it the unsubscribe function)
+                def on_state(connected, mtu, err, oid=oid, a=a):
+                    run.cb.append([100 + int(oid[1:]), "connected" if connected else "disconnected", a, [], run.msg_seq])
+                    r = run.op_results.get(oid)
+                    if not connected and callable(r):
+                        r()
+                        run.leftover.discard(oid)
+
+                coro = c.bluetooth_device_connect(A, on_state, timeout=TBLE, disconnect_timeout=TDISC)
             elif k == "disconnect":
                 coro = c.bluetooth_device_disconnect(A, timeout=TBLE)
             elif k == "pair":
@@ -484,7 +495,7 @@ def run_schedule(cfg: dict, schedule: list, seed: int = 0) -> dict:
 
 # ------------------------------------------------------------------ families
 GATT_OPS = ["read", "readdesc", "write", "writedesc", "notify"]
-ALL_OPS = GATT_OPS + ["services", "connect", "disconnect", "pair", "unpair", "clear", "writenr"]
+ALL_OPS = GATT_OPS + ["services", "connect", "connect_auto", "disconnect", "pair", "unpair", "clear", "writenr"]
 
 
 def gaps(rng):
@@ -563,6 +574,14 @@ def c16_systematic() -> list:
                 out.append([("ev", "op", "o1", first, 1, 1), ("idle",), ("ev", "msgs", [{"k": "conn", "a": 1, "f": True}, {"k": "notify", "a": 1, "h": 1}]), ("idle",),
                             endev, ("idle",), ("ev", "op", "o2", k, 1, 1), ("idle",), endev, ("idle",),
                             ("ev", "msgs", [{"k": "ndata", "a": 1, "h": 1, "d": 8}, {"k": "conn", "a": 1, "f": False}]), ("idle",), ("tick",)])
+    # a connected peripheral drops off while calls are pending on it and on another one; its state callback
+    # unsubscribes itself from inside the callback
+    for k in GATT_OPS + ["services", "pair", "disconnect"]:
+        for g in ([], [("iter", 1)], [("idle",)]):
+            out.append([("ev", "op", "o1", "connect_auto", 1, 0), ("idle",), ("ev", "msgs", [{"k": "conn", "a": 1, "f": True}]), ("idle",),
+                        ("ev", "op", "o2", k, 1, 1), ("idle",), ("ev", "op", "o3", "read", 2, 1)] + g +
+                       [("ev", "msgs", [{"k": "conn", "a": 1, "f": False}])] + g +
+                       [("ev", "msgs", [{"k": "read", "a": 2, "h": 1, "d": 6}, {"k": "conn", "a": 1, "f": True}]), ("idle",), ("tick",), ("tick",)])
     return cross, out
 
 
